@@ -41,7 +41,6 @@ CHECKS = {
           "not decided.",
   "note": ASSUME + "8-bit backward frames; Frame.__add__ concatenates left "
           "operand high (C05)."},
-}
  "C06": {
   "technique": "abstract interpretation of response classes over "
                "{None, Clean, Err} x byte subsets; exception-escape analysis "
